@@ -505,6 +505,9 @@ void janet_sweep() {
                     }
                     /* Free memory */
                     janet_free(janet_abstract_head(abst));
+#ifdef JANET_VERIF
+                    janet_atomic_dec(&janet_verif_live_threaded);
+#endif
                 }
 
                 /* Mark as tombstone in place */
@@ -753,6 +756,9 @@ void janet_clear_memory(void) {
                     janet_assert(!head->type->gc(head->data, head->size), "finalizer failed");
                 }
                 janet_free(janet_abstract_head(abst));
+#ifdef JANET_VERIF
+                janet_atomic_dec(&janet_verif_live_threaded);
+#endif
             }
         }
     }
